@@ -142,9 +142,11 @@ theorem typeBin_sound (op : BinOp) (ta tb t : Ty × Bool) (x y v : Val)
               | (simp only [intDiv, intMod] at hv
                  split at hv
                  · cases hv
-                 · split at hv
-                   · cases hv
-                   · simp only [Except.ok.injEq] at hv; subst hv; cases u <;> simp_all [Val.hasTy])
+                 · first
+                     | (split at hv
+                        · cases hv
+                        · simp only [Except.ok.injEq] at hv; subst hv; cases u <;> simp_all [Val.hasTy])
+                     | (simp only [Except.ok.injEq] at hv; subst hv; cases u <;> simp_all [Val.hasTy]))
           · cases hv
         · intro hn
           simp only [Bool.or_eq_false_iff] at hn
@@ -157,9 +159,11 @@ theorem typeBin_sound (op : BinOp) (ta tb t : Ty × Bool) (x y v : Val)
               | (simp only [intDiv, intMod] at hv
                  split at hv
                  · cases hv
-                 · split at hv
-                   · cases hv
-                   · simp only [Except.ok.injEq] at hv; subst hv; rfl)
+                 · first
+                     | (split at hv
+                        · cases hv
+                        · simp only [Except.ok.injEq] at hv; subst hv; rfl)
+                     | (simp only [Except.ok.injEq] at hv; subst hv; rfl))
           · cases hv
       · cases ht
   -- comparisons
